@@ -146,6 +146,20 @@ def monitor(tier, seed, progress):
                     cmp_series('bollinger', ind.numeric_array(bb_.upperband), [None if m_ is None else m_ + 2 * s_ for m_, s_ in zip(mids_, want)], cond, rtol=1e-7)
                     cmp_series('bollinger', ind.numeric_array(bb_.lowerband), [None if m_ is None else m_ - 2 * s_ for m_, s_ in zip(mids_, want)], cond, rtol=1e-7)
                 except Exception: pass
+                if n > p + 2:
+                    # a recursive smoother in its recurrence step: Wilder's ATR, p * ATR_i - (p - 1) * ATR_{i-1} = true range of candle i
+                    progress(dict(base, indicator='atr'))
+                    try:
+                        a_ = ind.numeric_array(ta.atr(arr, p, sequential=True))
+                        n_checks += 1
+                        for i_ in range(p + 1, n):
+                            if a_[i_] != a_[i_] or a_[i_ - 1] != a_[i_ - 1]:
+                                continue
+                            tr_ = max(cs[i_][3] - cs[i_][4], abs(cs[i_][3] - cs[i_ - 1][2]), abs(cs[i_][4] - cs[i_ - 1][2]))
+                            step_ = p * a_[i_] - (p - 1) * a_[i_ - 1]
+                            if abs(step_ - tr_) > 1e-7 * scale * p:
+                                bad('definition:atr', index=i_, recurrence_step=float(step_), true_range=float(tr_)); break
+                    except Exception: pass
                 if n > p:
                     vol_ = [r_[5] for r_ in cs]
                     want, cond = [], []
